@@ -628,42 +628,53 @@ fn enumerate(n: usize, f: &mut dyn FnMut(Vec<Ev>)) {
 }
 
 /// Random histories over one or two links on one or two accounts with boundary-seeking clock steps.
+/// The generator keeps a rough guess of which exchanges succeeded so that most references hit a
+/// live token; wrong guesses only make the history less busy, never wrong.
 fn random_case(r: &mut Rng) -> Vec<Ev> {
     let two_links = r.chance(1, 2);
     let two_accts = two_links && r.chance(1, 2);
-    let ttl = |r: &mut Rng| match r.below(4) {
-        0 => None,
-        1 => Some(300),
-        2 => Some(r.range(1, 2000)),
-        _ => Some(r.range(300, 1500)),
+    let ttl = |r: &mut Rng| match r.below(6) {
+        0 | 1 => None,
+        2 => Some(300),
+        3 => Some(r.range(1, 2000)),
+        _ => Some(r.range(900, 4000)),
     };
-    let mut evs = vec![Ev::I(0, ttl(r))];
+    let life = |t: Option<u64>| t.unwrap_or(3600).clamp(300, 86_400) as u128 * NS;
+    let mut evs = vec![];
+    // (expiry relative to the case start, guessed consumed)
+    let mut links: Vec<(u128, bool)> = vec![];
+    let mut t: u128 = 0;
+    let t0 = ttl(r);
+    evs.push(Ev::I(0, t0));
+    links.push((life(t0), false));
     if two_links {
         if r.chance(1, 3) {
-            evs.push(Ev::T(r.range(0, 400) as u128 * NS));
+            let d = r.range(0, 400) as u128 * NS;
+            evs.push(Ev::T(d));
+            t += d;
         }
-        evs.push(Ev::I(if two_accts { 1 } else { 0 }, ttl(r)));
+        let t1 = ttl(r);
+        evs.push(Ev::I(if two_accts { 1 } else { 0 }, t1));
+        links.push((t + life(t1), false));
     }
-    let nlinks = if two_links { 2 } else { 1 };
     let len = r.range(4, 14);
-    let mut slots = 0usize;
-    // the clock relative to the first init; boundaries of interest collected as they appear
-    let mut t: u128 = 0;
-    let mut marks: Vec<u128> = vec![300 * NS, 3600 * NS];
+    // per slot: Some((link or usize::MAX for a link-less session, token expiry)) when guessed live
+    let mut slots: Vec<Option<(usize, u128)>> = vec![];
+    let mut marks: Vec<u128> = links.iter().map(|l| l.0).collect();
     for _ in 0..len {
         // clock step
-        match r.below(10) {
-            0..=2 => {}
-            3 => {
+        match r.below(12) {
+            0..=3 => {}
+            4 => {
                 evs.push(Ev::T(1));
                 t += 1;
             }
-            4 | 5 => {
-                let d = r.range(1, 5) as u128 * NS;
+            5..=7 => {
+                let d = r.range(1, 5) as u128 * NS + r.below(2) as u128 * r.below(NS as u64) as u128;
                 evs.push(Ev::T(d));
                 t += d;
             }
-            6 | 7 => {
+            8 | 9 => {
                 // to just before / at / just after a boundary ahead
                 let ahead: Vec<u128> = marks.iter().copied().filter(|m| *m > t + 1).collect();
                 if !ahead.is_empty() {
@@ -673,47 +684,100 @@ fn random_case(r: &mut Rng) -> Vec<Ev> {
                     t = target;
                 }
             }
-            8 => {
+            10 => {
+                let d = r.range(30, 400) as u128 * NS;
+                evs.push(Ev::T(d));
+                t += d;
+            }
+            _ => {
                 let d = r.range(1, 1000) as u128 * NS + r.below(NS as u64) as u128;
                 evs.push(Ev::T(d));
                 t += d;
             }
-            _ => {
-                let d = r.range(100, 400) as u128 * NS;
-                evs.push(Ev::T(d));
-                t += d;
-            }
         }
-        let pick_slot = |r: &mut Rng, slots: usize| if slots == 0 { 0 } else if r.chance(2, 3) { slots - 1 - (r.below(slots.min(2) as u64) as usize) } else { r.below(slots as u64) as usize };
-        match r.below(20) {
-            0..=5 => {
-                evs.push(Ev::X(r.below(nlinks) as usize));
-                marks.push(t + CU_TTL);
-                if r.chance(3, 4) {
-                    evs.push(Ev::P(slots));
-                }
-                slots += 1;
+        let live: Vec<usize> = slots.iter().enumerate().filter(|(_, s)| s.map(|x| x.1 > t).unwrap_or(false)).map(|(i, _)| i).collect();
+        let pick_slot = |r: &mut Rng| -> usize {
+            if !live.is_empty() && r.chance(5, 6) {
+                if r.chance(1, 2) { *live.last().unwrap() } else { *r.pick(&live) }
+            } else if slots.is_empty() {
+                0
+            } else {
+                r.below(slots.len() as u64) as usize
             }
-            6..=10 => evs.push(Ev::C(pick_slot(r, slots))),
-            11 | 12 | 13 => evs.push(Ev::K(pick_slot(r, slots))),
-            14 | 15 => evs.push(Ev::P(pick_slot(r, slots))),
-            16 => evs.push(Ev::R(r.below(nlinks) as usize)),
+        };
+        let nlinks = links.len();
+        let alive: Vec<usize> = (0..nlinks).filter(|l| t < links[*l].0 && !links[*l].1).collect();
+        let mut choice = r.below(21);
+        if alive.is_empty() && choice != 18 && r.chance(1, 2) && nlinks < 4 {
+            // every link is (guessed) finished: start a new one more often than not
+            choice = 18;
+        } else if live.is_empty() && (6..=15).contains(&choice) && r.chance(2, 3) {
+            // no live token to act on: exchange instead
+            choice = 0;
+        }
+        match choice {
+            0..=5 => {
+                let l = if !alive.is_empty() && r.chance(4, 5) { *r.pick(&alive) } else { r.below(nlinks as u64) as usize };
+                evs.push(Ev::X(l));
+                let ok = t < links[l].0 && !links[l].1;
+                marks.push(t + CU_TTL);
+                if ok && r.chance(3, 4) {
+                    evs.push(Ev::P(slots.len()));
+                }
+                slots.push(if ok { Some((l, t + CU_TTL)) } else { None });
+            }
+            6..=10 => {
+                let k = pick_slot(r);
+                evs.push(Ev::C(k));
+                if let Some(Some((l, _))) = slots.get(k).copied() {
+                    if l != usize::MAX {
+                        links[l].1 = true;
+                    }
+                    slots[k] = None;
+                }
+            }
+            11 | 12 | 13 => {
+                let k = pick_slot(r);
+                evs.push(Ev::K(k));
+                if k < slots.len() {
+                    slots[k] = None;
+                }
+            }
+            14 | 15 => evs.push(Ev::P(pick_slot(r))),
+            16 => {
+                let l = r.below(nlinks as u64) as usize;
+                evs.push(Ev::R(l));
+                links[l].1 = true;
+            }
             17 => {
                 evs.push(Ev::D(r.below(2) as usize));
                 marks.push(t + CU_TTL);
                 if r.chance(1, 2) {
-                    evs.push(Ev::P(slots));
+                    evs.push(Ev::P(slots.len()));
                 }
-                slots += 1;
+                slots.push(Some((usize::MAX, t + CU_TTL)));
             }
-            18 => evs.push(Ev::I(r.below(2) as usize, ttl(r))),
+            18 => {
+                let tt = ttl(r);
+                evs.push(Ev::I(r.below(2) as usize, tt));
+                links.push((t + life(tt), false));
+                marks.push(t + life(tt));
+            }
             _ => {
                 // an immediate second exchange of the same link at the same instant (H3)
-                let l = r.below(nlinks) as usize;
+                let l = r.below(nlinks as u64) as usize;
                 evs.push(Ev::X(l));
+                if r.chance(1, 2) {
+                    evs.push(Ev::P(slots.len()));
+                }
                 evs.push(Ev::X(l));
+                if r.chance(1, 2) {
+                    evs.push(Ev::P(slots.len() + 1));
+                }
+                let ok = t < links[l].0 && !links[l].1;
                 marks.push(t + CU_TTL);
-                slots += 2;
+                slots.push(if ok { Some((l, t + CU_TTL)) } else { None });
+                slots.push(if ok { Some((l, t + CU_TTL)) } else { None });
             }
         }
     }
@@ -788,7 +852,7 @@ fn main() {
             }
         }
         rep.exhaustive = true;
-        let nr = args.cases(600, 12_000);
+        let nr = args.cases(500, 8_000);
         for i in 0..nr {
             let mut r = Rng::for_case(args.seed, i);
             let evs = random_case(&mut r);
